@@ -26,7 +26,8 @@ TOL = 1e-7
 
 
 def rotvec():
-    return st.tuples(gens.direction3(), gens.rot_angles(-12)).map(lambda t: {"axis": t[0], "mag": t[1]})
+    mags = st.one_of(gens.rot_angles(-12), gens.rot_angles(-12), gens.logmag(-4, -1))      # extra weight on 1e-4..1e-1 (series / closed-form switch-overs)
+    return st.tuples(gens.direction3(), mags).map(lambda t: {"axis": t[0], "mag": t[1]})
 
 
 def s_exp3():
@@ -40,13 +41,13 @@ def s_log3():
 
 
 def s_exp2():
-    return st.fixed_dictionaries({"kind": st.just("exp2"), "w": st.one_of(gens.angle2(), gens.signed_logmag(-12, 0.49)),
+    return st.fixed_dictionaries({"kind": st.just("exp2"), "w": st.one_of(gens.angle2(), gens.signed_logmag(-12, 0.49), gens.signed_logmag(-4, -1)),
                                   "v": st.one_of(gens.trans(2, -6, 6), st.just([0.0, 0.0])),
                                   "se": st.booleans(), "matrix": st.booleans(), "theta_form": st.booleans()})
 
 
 def s_log2():
-    return st.fixed_dictionaries({"kind": st.just("log2"), "w": st.one_of(gens.angle2(), gens.signed_logmag(-12, 0.49)),
+    return st.fixed_dictionaries({"kind": st.just("log2"), "w": st.one_of(gens.angle2(), gens.signed_logmag(-12, 0.49), gens.signed_logmag(-4, -1)),
                                   "v": st.one_of(gens.trans(2, -6, 6), st.just([0.0, 0.0])),
                                   "se": st.booleans(), "twist": st.booleans()})
 
@@ -310,8 +311,8 @@ def classify(case):
 
 def subchecks(tier):
     return [
-        Sub("exp3", strategy=s_exp3(), n=(250, 8000), shards=(5, 16)),
-        Sub("log3", strategy=s_log3(), n=(500, 15000), shards=(5, 16)),
-        Sub("exp2", strategy=s_exp2(), n=(250, 6000), shards=(3, 16)),
-        Sub("log2", strategy=s_log2(), n=(500, 12000), shards=(3, 16)),
+        Sub("exp3", strategy=s_exp3(), n=(400, 8000), shards=(6, 16)),
+        Sub("log3", strategy=s_log3(), n=(700, 15000), shards=(5, 16)),
+        Sub("exp2", strategy=s_exp2(), n=(500, 6000), shards=(5, 16)),
+        Sub("log2", strategy=s_log2(), n=(700, 12000), shards=(4, 16)),
     ]
